@@ -352,6 +352,12 @@ struct Runner {
     if (on) { std::fputs(op.c_str(), stderr); std::fputc('\n', stderr); std::fflush(stderr); }
   }
 
+  // Cardinality() / IsEmpty() without iterating: lazy power sets and products of any size (seeded change C15-4: the
+  // product of cardinalities wrapped to 0 for sizes that are multiples of 2^64)
+  void opCard(const Ex& a) {
+    const std::string op_ = "c15 card " + text(a); trace(op_);
+    emit(op_, guarded(true, [&] { const auto v = build(a); return std::to_string(v.B().Cardinality()) + " " + bit(v.B().IsEmpty()); }));
+  }
   void opStr(const Ex& a, bool risky = false) {
     const std::string op_ = "c15 str " + text(a); trace(op_); emit(op_, guarded(risky, [&] { return str(build(a)); }));
   }
@@ -576,6 +582,24 @@ int main() {
                 node('X', { empty, node('S', { num(1) }) }));
     run.battery(sb, node('S', { num(1), num(2), num(3) }), node('S', { num(1), num(2), num(4) }), node('S', { num(1), num(2) }));
     run.battery(sb, node('S', { num(-2147483647 - 1), num(2147483647), num(0) }), node('S', { num(0), num(-1) }), node('S', { num(2147483647) }));
+    // sizes: enumerations of k members, their power sets, products of two to four of them - never iterated
+    {
+      auto range = [&](int k) { std::vector<Ex> v; for (int i = 1; i <= k; ++i) v.push_back(num(i)); return node('S', v); };
+      std::vector<Ex> atoms;
+      for (int k : { 0, 1, 2, 5, 16, 22, 27, 30, 31, 32, 40 }) { atoms.push_back(range(k)); atoms.push_back(node('P', { range(k) })); }
+      atoms.push_back(node('P', { node('P', { range(3) }) }));
+      for (const auto& a : atoms) run.opCard(a);
+      for (int i = 0; i < (deep ? 600 : 150); ++i) {
+        std::vector<Ex> fs;
+        const int n = rng.range(2, 4);
+        const bool pow2 = rng.chance(1, 2);   // powers of two multiply to exact multiples of 2^64
+        for (int k = 0; k < n; ++k) fs.push_back(pow2 ? node('P', { range(rng.pick(std::vector<int>{ 16, 22, 27, 30, 32 })) }) : rng.pick(atoms));
+        run.opCard(node('X', fs));
+        if (rng.chance(1, 4)) run.opCard(node('P', { node('X', fs) }));
+      }
+      run.opCard(node('X', { node('P', { range(22) }), node('P', { range(22) }), node('P', { range(22) }) }));
+      run.opCard(node('X', { node('P', { range(16) }), node('P', { range(16) }), node('P', { range(16) }), node('P', { range(16) }) }));
+    }
     // IsSubsetOrEq / Contains with a lazy left operand: first element missing, a later one missing, none missing
     const Ex p12 = node('P', { node('S', { num(1), num(2) }) });
     const Ex s1 = node('S', { num(1) }), s2 = node('S', { num(2) }), s12 = node('S', { num(1), num(2) });
